@@ -147,6 +147,8 @@ struct World6 {
     proto: usize,
     hp: u32,
     good_seq: u32,
+    /// (channel, bytes) of the well-behaved client's own handshake message, if the auth method has one
+    handshake: Option<(usize, Bytes)>,
     verbose: bool,
     // results
     inputs: u64,
@@ -187,6 +189,7 @@ impl World6 {
             proto,
             hp: 0,
             good_seq: 0,
+            handshake: None,
             verbose,
             inputs: 0,
             errs: vec![],
@@ -243,6 +246,9 @@ impl World6 {
         self.good.update();
         let msgs: Vec<_> = self.good.world_mut().resource_mut::<RepliconClient>().drain_sent().collect();
         for (ch, m) in msgs {
+            if self.handshake.is_none() && self.proto == 1 && ch == 1 {
+                self.handshake = Some((ch, m.clone()));
+            }
             self.server.world_mut().resource_mut::<RepliconServer>().insert_received(self.good_ent, ch, m);
         }
         true
@@ -604,7 +610,19 @@ fn run_seed(seed: u64, thorough: bool, w: &mut World6) -> (&'static str, String)
                     })
                     .collect();
                 w.feed_batch(r.below(2) == 0, &batch);
-                match r.below(6) {
+                match r.below(7) {
+                    6 => {
+                        // a client connects, its (well-formed) handshake and some garbage arrive, and the
+                        // connection is gone before the server gets to process any of it
+                        let e = w.server.world_mut().spawn(ConnectedClient { max_size: 1200 }).id();
+                        if let Some((ch, m)) = w.handshake.clone() {
+                            w.server.world_mut().resource_mut::<RepliconServer>().insert_received(e, ch, m);
+                        }
+                        let m: Vec<u8> = (0..r.below(12)).map(|_| hostile_byte(&mut r)).collect();
+                        w.server.world_mut().resource_mut::<RepliconServer>().insert_received(e, r.below(nch), m);
+                        w.server.world_mut().entity_mut(e).despawn();
+                        w.feed(r.below(2) == 0, r.below(nch), &[]);
+                    }
                     0 => {
                         let e = w.server.world_mut().spawn(ConnectedClient { max_size: 1200 }).id();
                         // hostile data from a client that connects and leaves at once
